@@ -201,6 +201,14 @@ def run_f(case):
                                                     "computed": f"{correct:#06x}" if correct in (0, 0xFFFF) else "other"},
                               "sub": {"w": w, "field": val}, "detail": f"word {w:#06x}: field {val:#06x}, correct {correct:#06x}"})
         if w % 1024 == 0:
+            # ... and one of exactly the SAME transport-layer length as the swept packet, same direction, verified right before it
+            n += 2
+            same_len = Packet(net.build_frame(src, dst, other, b"\x42" * (len(payload) + (12 if other == "udp" else -12 if len(payload) >= 12 else 0)),
+                                              seq=7, ack=9), 1.0)
+            tr.sum = correct
+            if not ofn(same_len) or not fn(pk):
+                fails.append({"kind": "correct_checksum_rejected", "sig": {"v6": v6, "proto": proto, "after_equal_length_packet_of": other},
+                              "detail": f"a correct {other} packet and a correct {proto} packet of equal transport-layer length between the same addresses: one was rejected"})
             for k, q in enumerate(opk):
                 n += 1
                 if not ofn(q):
@@ -271,10 +279,11 @@ def run_p(case):
                 assert not net.transport_ok(q.frame)
             corrupted.append(q)
         filtered = [p for i, p in enumerate(pkts) if i not in bad]
-        r1 = scen.run(corrupted, keylog, ["-c"])
-        r2 = scen.run(filtered, keylog, [])
+        extra = ["-g"] if mask % 3 == 1 else []          # a third of the subsets also with the greased-bit option
+        r1 = scen.run(corrupted, keylog, ["-c"] + extra)
+        r2 = scen.run(filtered, keylog, extra)
         n += 2
-        sig = {"layer": "P", "subset": mask}
+        sig = {"layer": "P", "subset": mask, "args": " ".join(["-c"] + extra)}
         if not r1.ok or not r2.ok:
             bad_r = r1 if not r1.ok else r2
             fails.append({"kind": "run_failed", "sig": sig, "detail": bad_r.status + bad_r.detail[-400:]})
